@@ -34,29 +34,30 @@ def norm_arch(a: Dict[str, Any]) -> Dict[str, Any]:
 
 def shapes(arch) -> List[Dict[str, int]]:
     """Static (channels, spatial, flat) of every tensor, index 0 = input."""
-    sh = [{"ch": arch["c0"], "sp": arch["sp"], "flat": False}]
+    sh = [{"ch": arch["c0"], "sp": arch["sp"], "spw": arch["sp"] if arch["dim"] == 2 else 1, "flat": False}]
     for n in arch["nodes"]:
         i0 = sh[n["ins"][0]]
         op = n["op"]
         if op == "conv":
             sp = (i0["sp"] - 1) // n["s"] + 1
-            sh.append({"ch": i0["ch"] if n["dw"] else n["out"], "sp": sp, "flat": False})
+            spw = (i0["spw"] - 1) // n["s"] + 1 if arch["dim"] == 2 else 1
+            sh.append({"ch": i0["ch"] if n["dw"] else n["out"], "sp": sp, "spw": spw, "flat": False})
         elif op == "lin":
-            sh.append({"ch": n["out"], "sp": 1, "flat": True})
+            sh.append({"ch": n["out"], "sp": 1, "spw": 1, "flat": True})
         elif op in ("relu", "id"):
             sh.append(dict(i0))
         elif op == "pool":
-            sh.append({"ch": i0["ch"], "sp": i0["sp"] // 2, "flat": False})
+            sh.append({"ch": i0["ch"], "sp": i0["sp"] // 2, "spw": i0["spw"] // 2 if arch["dim"] == 2 else 1, "flat": False})
         elif op == "flat":
-            sh.append({"ch": i0["ch"] * (i0["sp"] ** arch["dim"]), "sp": 1, "flat": True})
+            sh.append({"ch": i0["ch"] * i0["sp"] * i0["spw"], "sp": 1, "spw": 1, "flat": True})
         elif op == "gsq":       # global average pooling + squeeze of the (single) spatial axis, 1-D nets
-            sh.append({"ch": i0["ch"], "sp": 1, "flat": True})
+            sh.append({"ch": i0["ch"], "sp": 1, "spw": 1, "flat": True})
         elif op == "add":
             sh.append(dict(i0))
         elif op == "cat":
-            sh.append({"ch": sum(sh[i]["ch"] for i in n["ins"]), "sp": i0["sp"], "flat": i0["flat"]})
+            sh.append({"ch": sum(sh[i]["ch"] for i in n["ins"]), "sp": i0["sp"], "spw": i0["spw"], "flat": i0["flat"]})
         elif op == "catt":
-            sh.append({"ch": i0["ch"], "sp": sum(sh[i]["sp"] for i in n["ins"]), "flat": False})
+            sh.append({"ch": i0["ch"], "sp": sum(sh[i]["sp"] for i in n["ins"]), "spw": i0["spw"], "flat": False})
         else:
             raise ValueError(op)
     return sh
@@ -139,7 +140,11 @@ class GrammarNet(nn.Module):
             elif op == "cat":
                 y = torch.cat([t[i] for i in ins], dim=1)
             elif op == "catt":
-                y = torch.cat([t[i] for i in ins], dim=2)
+                # concat over the time axis (1-D) / the height axis (2-D); the axis may be given as a negative index
+                nd = self.arch["nodes"][len(t) - 1]
+                neg = nd["d"] < 0
+                axis = (-1 if neg else 2) if self.arch["dim"] == 1 else (-2 if neg else 2)
+                y = torch.cat([t[i] for i in ins], dim=axis)
             elif op == "gsq":
                 y = self.layers[names[0]](t[ins[0]]).squeeze(self.arch["nodes"][len(t) - 1]["d"])
             else:
@@ -152,6 +157,10 @@ class GrammarNet(nn.Module):
 
 def input_shape(arch) -> tuple:
     return (arch["c0"],) + (arch["sp"],) * arch["dim"]
+
+
+def positions(shape_rec) -> int:
+    return shape_rec["sp"] * shape_rec["spw"]
 
 
 def randomize(net: nn.Module, gen: torch.Generator) -> None:
